@@ -1123,7 +1123,8 @@ def run_case(ctx, rng, src, feats, prog_idx, tree, ser, n, results, counter):
         c = n.copy()
     except Exception as e:                                      # noqa
         results["direct"].append(("Node.copy/raises:%s" % type(e).__name__,
-                                  "copy() raises on a valid tree: " + str(e).split("\n")[0][:300], src, kname, pos))
+                                  "copy() raises on a valid tree: " + str(e).split("\n")[0][:300], src, kname, pos,
+                                  results["decor_seed"][prog_idx]))
         ctx.count((hashlib.sha1(src.encode()).hexdigest(), pos), nontrivial=False)
         return
     text_c = write_tree(c)
@@ -1153,7 +1154,7 @@ def run_case(ctx, rng, src, feats, prog_idx, tree, ser, n, results, counter):
         fails.append(("copy_equal/written-text-differs:" + kname,
                       "\n".join(difflib.unified_diff(text_o.split("\n"), text_c.split("\n"), lineterm="", n=0))[:600]))
     for key, detail in fails:
-        results["direct"].append((key, detail, src, kname, pos))
+        results["direct"].append((key, detail, src, kname, pos, results["decor_seed"][prog_idx]))
     # --- edits
     n_acc = 0
     for side in ("original", "copy"):
@@ -1237,7 +1238,10 @@ def run(ctx):
         "generated Fortran units (fortgen statement bodies + declarations toggling: parameter in array bound, "
         "kind parameter + kind literal, initial value referring to a parameter, saved initial value, derived type, "
         "import, arguments with argument-dependent bound, module with module-level kind, sibling subroutine call, "
-        "function) read by the real frontend, decorated with shadowing symbols in inner scopes; every Routine / "
+        "function) read by the real frontend, decorated with shadowing symbols in inner scopes and (half of them) "
+        "with mixed-case temporaries / loop counters / tags / case-only clashes created through the PSyIR API; "
+        "every third program is a module built entirely through the API (mixed / upper-case data, routine and "
+        "container symbols); every Routine / "
         "Container plus sampled Loop/IfBlock/Schedule/Assignment/expression subtrees is copied with the real copy(); "
         "edit sequences (rename_symbol, new_symbol, shadow add, replace expression, detach, set datatype, set initial "
         "value, re-target reference; 25% of sequences also in-place interface/StructureType/bound mutation) on one "
@@ -1327,17 +1331,20 @@ def run(ctx):
             reported.add(key)
             ctx.finding(key, what, replay)
 
-    for key, detail, src, kname, pos in results["direct"]:
+    for key, detail, src, kname, pos, dseed in results["direct"]:
         concrete += 1
         report(key, detail.split("\n")[0][:120],
                {"property": "C15", "source": src, "subtree": kname, "abs_position": pos, "detail": detail,
-                "replay": "n = FortranReader().psyir_from_source(source).walk(Node)[abs_position]; c = n.copy(); "
-                          "evaluate ==, node identities, and `ref.symbol is copy_table.lookup(name)`"})
+                "decorate_seed": dseed,
+                "replay": "tree = props/C15/check.py:_reread(source, decorate_seed)  (reader + decorate + api_decorate, or "
+                          "build_api_program for a `!api:` source); n = tree.walk(Node)[abs_position]; c = n.copy(); "
+                          "evaluate ==, node identities, and `ref.symbol is <copy's table entry of that name>`"})
     for src, kname, pos, why in results["broken"]:
         concrete += 1
         report("Node.copy/structure-differs:" + kname, why,
                {"property": "C15", "source": src, "subtree": kname, "abs_position": pos, "detail": why})
-    how = ("re-read source, decorate(Random(decorate_seed)), n = walk(Node)[abs_position], c = n.copy(), apply "
+    how = ("tree = props/C15/check.py:_reread(source, decorate_seed) (reader + decorate + api_decorate, or "
+           "build_api_program for a `!api:` source), n = tree.walk(Node)[abs_position], c = n.copy(), apply "
            "`edits_before` then `edit` to the named side, compare FortranWriter text")
     for f in results["indep"]:
         concrete += 1
